@@ -207,15 +207,35 @@ func c02Binds(c *Ctx) {
 		}
 		// R4: reference recorded under ref == nil; the ref store precedes or follows the bind in the same block
 		refField := p.Field(nodeCtlPkg, "PodRequest", ref)
+		// the reference store: in the block of the bind, or on every path from the bind to the next pod
+		var podLoopR *ast.RangeStmt
+		for _, nd := range pathTo(fn.Decl.Body, b.store.Node) {
+			if rs, ok := nd.(*ast.RangeStmt); ok && rs.Value != nil && identObj(info, rs.Value) == b.info {
+				podLoopR = rs
+			}
+		}
 		var refStore *Store
 		for _, rs := range p.StoresTo([]*FuncInfo{fn}, refField) {
 			rs := rs
-			if rs.RHS != nil && !info.Types[ast.Unparen(rs.RHS)].IsNil() && sameBlock(fn, rs.Node, b.store.Node) {
+			if rs.RHS == nil || info.Types[ast.Unparen(rs.RHS)].IsNil() {
+				continue
+			}
+			if sameBlock(fn, rs.Node, b.store.Node) {
 				refStore = &rs
+				break
+			}
+			if podLoopR != nil {
+				q := NewPathQuery(p, fn, nil)
+				q.ToBlock = loopHead(podLoopR)
+				q.TrackNil = identObj(info, rs.RHS)
+				if w := q.Escapes(isExactly(b.store.Node), nil, isExactly(rs.Node), nil); w == nil {
+					refStore = &rs
+					break
+				}
 			}
 		}
 		if refStore == nil {
-			c.Bad("C02.R4", fam+" bind records the reference", p.Pos(b.store.Node), fn.Key(), "<pod>."+ref+" = … next to the bind", "no such store in the block of the bind")
+			c.Bad("C02.R4", fam+" bind records the reference", p.Pos(b.store.Node), fn.Key(), "<pod>."+ref+" = … on every path from the bind to the next pod", "no such store")
 			continue
 		}
 		c.Require("C02.R4", fam+" bind only while the pod has no "+fam+" binding", fn, refStore.Node, inf+"."+ref+" == nil", nil)
@@ -224,6 +244,22 @@ func c02Binds(c *Ctx) {
 		switch r := ast.Unparen(refStore.RHS).(type) {
 		case *ast.Ident:
 			okRef = info.ObjectOf(r) == b.baseObj
+			if !okRef {
+				// a result variable: every definition is nil or a copy of the bound entry
+				ds := varDefs(fn, info.ObjectOf(r))
+				okRef = len(ds) > 0
+				for _, d := range ds {
+					if d.rhs == nil {
+						if _, isDecl := d.node.(*ast.ValueSpec); !isDecl {
+							okRef = false
+						}
+						continue
+					}
+					if !info.Types[ast.Unparen(d.rhs)].IsNil() && identObj(info, d.rhs) != b.baseObj {
+						okRef = false
+					}
+				}
+			}
 		case *ast.UnaryExpr:
 			if cl, ok := r.X.(*ast.CompositeLit); ok {
 				for _, el := range cl.Elts {
